@@ -131,6 +131,69 @@ def client_source(subset, form):
     return "\n".join(lines + uses) + "\n"
 
 
+# a library that also uses its own public names internally (self.addValue, helperFunc, a re-export), formatted while the
+# library ITSELF is among the preserved files ('pyrefact pkg/lib.py --preserve pkg'); family added after the seeded change
+# C08-preserve-union-minus-own-names (names the file mentions itself were subtracted from what the other files need)
+LIB2 = '''from os.path import join as joinPath
+
+
+class Tally:
+    total = 0
+
+    def addValue(self, v):
+        self.total += v
+        return self.total
+
+    def add_many(self, vs):
+        for v in vs:
+            self.addValue(v)
+        return self.total
+
+    @staticmethod
+    def staticHelper(x):
+        return x + 4
+
+
+def helperFunc(x):
+    return x + 2
+
+
+def make_tally():
+    t = Tally()
+    t.addValue(helperFunc(0))
+    return t
+
+
+def unusedHelper(x):
+    return Tally.staticHelper(x)
+
+
+sharedValue = joinPath("a", "b")
+'''
+LIB2_NAMES = ["Tally.addValue", "Tally.add_many", "Tally.staticHelper", "helperFunc", "make_tally", "unusedHelper", "sharedValue", "joinPath"]
+SCOPES = ["client", "client_and_lib", "lib_and_client", "directory"]
+
+
+def client2_source(subset):
+    lines, uses = ["import vq_lib"], []
+    for n in subset:
+        if n == "Tally.addValue":
+            uses.append("print(vq_lib.Tally().addValue(3))")
+        elif n == "Tally.add_many":
+            uses.append("print(vq_lib.Tally().add_many([1, 2]))")
+        elif n == "Tally.staticHelper":
+            uses.append("print(vq_lib.Tally.staticHelper(1))")
+        elif n == "sharedValue":
+            uses.append("print(vq_lib.sharedValue)")
+        elif n == "joinPath":
+            uses.append("print(vq_lib.joinPath('c', 'd'))")
+        elif n == "make_tally":
+            uses.append("print(vq_lib.make_tally().total)")
+        else:
+            uses.append("print(vq_lib.%s(1))" % n)
+    return "\n".join(lines + uses) + "\n"
+
+
 def units(tier):
     keys = list(one_file_modules(tier))
     for i in range(0, len(keys), 25):
@@ -141,6 +204,11 @@ def units(tier):
     for s in subsets:
         for form in FORMS:
             yield {"t": "cross", "subset": list(s), "form": form}
+    subsets2 = [s for r in range(0, len(LIB2_NAMES) + 1) for s in itertools.combinations(LIB2_NAMES, r)]
+    if tier == "quick":
+        subsets2 = [s for s in subsets2 if len(s) <= 2 or len(s) >= len(LIB2_NAMES) - 1]
+    for s in subsets2:
+        yield {"t": "cross2", "subset": list(s)}
 
 
 # ------------------------------------------------------------------------------------------------
@@ -217,17 +285,27 @@ def _run_client(d, client_src):
 
 
 def check_cross(subset, form, only=None):
+    return _check_cross(subset, form, only, LIB, ["client"])
+
+
+def check_cross2(subset, only=None):
+    return _check_cross(subset, "lib2", only, LIB2, SCOPES)
+
+
+def _check_cross(subset, form, only, LIB, scopes):
     main = boot.main_module()
     res = {"n": 0, "nontrivial": [], "viol": [], "stats": {}, "samples": []}
-    client = client_source(subset, form)
-    for max_passes in (1, 5):
-        for safe in (False, True):
-            for driver in ("format_files", "cli"):
+    client = client2_source(subset) if form == "lib2" else client_source(subset, form)
+    cls_name = "Tally" if form == "lib2" else "Widget"
+    for max_passes, safe, driver, scope in itertools.product((1, 5), (False, True), ("format_files", "cli"), scopes):
+            if True:
                 if driver == "cli" and max_passes == 1 and not safe:
                     continue  # the command line uses 5 passes, or 1 in safe mode
                 if driver == "cli" and max_passes == 5 and safe:
                     continue
                 desc = {"subset": subset, "form": form, "max_passes": max_passes, "safe": safe, "driver": driver}
+                if scope != "client":
+                    desc["scope"] = scope
                 if only and desc != only:
                     continue
                 res["n"] += 1
@@ -248,10 +326,14 @@ def check_cross(subset, form, only=None):
                 main.logger.set_level = lambda level: None  # the CLI turns logging on; keep the harness quiet
                 boot.clear_caches()
                 try:
+                    pres = {"client": [client_path], "client_and_lib": [client_path, lib_path], "lib_and_client": [lib_path, client_path],
+                            "directory": None}[scope]
                     if driver == "format_files":
-                        main.format_files([lib_path], preserved_filenames=[client_path], n_cores=1, max_passes=max_passes, safe=safe)
+                        if pres is None:  # what the command line does with a directory: every .py file below it
+                            pres = sorted(os.path.join(d, f) for f in os.listdir(d) if f.endswith(".py"))
+                        main.format_files([lib_path], preserved_filenames=pres, n_cores=1, max_passes=max_passes, safe=safe)
                     else:
-                        main.main([lib_path, "--preserve", client_path] + (["--safe"] if safe else []))
+                        main.main([lib_path, "--preserve"] + (pres or [d]) + (["--safe"] if safe else []))
                 except BaseException as e:  # noqa: BLE001
                     res["stats"]["blocked_by_C04"] = res["stats"].get("blocked_by_C04", 0) + 1
                     continue
@@ -267,7 +349,7 @@ def check_cross(subset, form, only=None):
                     continue
                 after = _run_client(d, client)
                 top = {n.split(".")[0] for n in subset}
-                cls = {"Widget": {n.split(".")[1] for n in subset if "." in n}}
+                cls = {cls_name: {n.split(".")[1] for n in subset if "." in n}}
                 try:
                     miss = surface.missing(top, cls, new_lib)
                 except SyntaxError:
@@ -296,6 +378,8 @@ def run_unit(unit):
             if not res["samples"]:
                 res["samples"] = r["samples"]
         return res
+    if unit["t"] == "cross2":
+        return check_cross2(unit["subset"])
     return check_cross(unit["subset"], unit["form"])
 
 
@@ -303,10 +387,14 @@ def replay(desc):
     progs.worker_setup()
     if "key" in desc:
         return check_one(desc["key"], only=desc)["viol"]
+    if desc["form"] == "lib2":
+        return check_cross2(desc["subset"], only=desc)["viol"]
     return check_cross(desc["subset"], desc["form"], only=desc)["viol"]
 
 
 def explain(desc):
     if "key" in desc:
         return surface.module_by_key(desc["key"])[0]
+    if desc["form"] == "lib2":
+        return "client:\n" + client2_source(desc["subset"]) + "\nlibrary:\n" + LIB2 + "\npreserved: " + desc.get("scope", "client")
     return "client:\n" + client_source(desc["subset"], desc["form"]) + "\nlibrary:\n" + LIB
